@@ -14,7 +14,8 @@ class Phys:
     pass
 
 
-def run_static(sc, fit="dlite", method=None, ne=None, replace=True, pressure=False, allow_negatives=True, solve=True, reset_err=True):
+def run_static(sc, fit="dlite", method=None, ne=None, replace=True, pressure=False, allow_negatives=True, solve=True, reset_err=True,
+               prior_limit=None):
     """sc: statics.StaticCase (mesh in sc.bm).  Returns Phys or raises what the implementation raises."""
     if reset_err:
         np.seterr(all="raise")      # the state `import forsys` sets; reset_err=False keeps whatever earlier package calls left behind
@@ -25,6 +26,13 @@ def run_static(sc, fit="dlite", method=None, ne=None, replace=True, pressure=Fal
         bm.vertices, bm.edges, bm.cells = v, e, c
     frame = impl.make_frame((v, e, c))
     f = fs.ForSys({0: frame})
+    if prior_limit is not None:
+        # the same frame was assembled before with a finite angle limit (and solved): the later default build must not depend on it
+        impl.quiet(f.build_force_matrix, when=0, circle_fit_method=fit, angle_limit=prior_limit)
+        try:
+            impl.quiet(f.solve_stress, when=0)
+        except Exception:
+            pass
     impl.quiet(f.build_force_matrix, when=0, circle_fit_method=fit)
     fm = f.force_matrices[0]
     ph = Phys()
@@ -94,6 +102,8 @@ def run_static(sc, fit="dlite", method=None, ne=None, replace=True, pressure=Fal
             impl.quiet(f.build_pressure_matrix, when=0)
             impl.quiet(f.solve_pressure, when=0, method="lagrange_pressure")
             ph.pressure = {bm.cell_phys[cid]: float(cl.pressure) for cid, cl in frame.cells.items()}
+            tab = impl.quiet(frame.get_pressures)
+            ph.pressure_table = {bm.cell_phys[int(i)]: float(p_) for i, p_ in zip(tab["id"].tolist(), tab["pressure"].tolist())}
             ph.removed_cells = {bm.cell_phys[list(frame.cells.keys())[j]] for j in f.pressure_matrices[0].removed_columns}
     return ph
 
